@@ -197,3 +197,133 @@ End Doc.
 Definition is_annotation_text (l : list N) : bool := test [45; 64] l.
 Definition has_annotation (es : list (Z * cinfo)) : bool :=
   existsb (fun e => existsb (fun c => is_annotation_text (cl_str c)) (ci_lines (snd e))) es.
+
+(* ================================================================================================================
+   Fix C13-long-comment-doc (fixes/C13-long-comment-doc.diff): a long-bracket comment `--[[ text ]]` keeps its text.
+   Before the fix skipWhiteSpaces stored a CommentInfo WITHOUT any text for a long-bracket comment (`if shortFlag { append }`),
+   so a `--[[ doc ]]` block directly above a declaration - or trailing on its line - was never shown. After the fix the
+   text (as scanLongString returns it: line breaks normalised to "\n", a first line break dropped, a closing "\n--"
+   trimmed) is kept in CommentInfo.LongStr and getSpecialLineComment starts from it. The grouping is unchanged: a
+   long-bracket comment never joins a neighbouring comment, it is a block of its own, keyed by its last line.
+   Model: the comment bookkeeping of Model/Lexer.v (comment_step / skip_ws / next_token / lex_loop, shared and frozen)
+   is repeated here with the flag `fx`; LongStr is represented as the single `cline` of a cinfo with ci_short = false
+   (cl_line = the comment's last line, cl_col = its start column + 2). `fx = false` is literally the shared model
+   (Proofs/CommentsLong.v lex_all_v_false); `long_fix_deployed` says which variant the code has.
+   ================================================================================================================ *)
+Definition long_fix_deployed : bool := true.
+
+Section LongFix.
+  Variable fx : bool.
+
+  Definition add_line_v (ci : cinfo) (short : bool) (txt : list N) (ln col : Z) : cinfo :=
+    if short || fx then mkCinfo (ci_lines ci ++ [mkCline txt ln col]) (ci_short ci) (ci_head ci) else ci.
+
+  Definition comment_step_v (cs : cstate) (short head : bool) (txt : list N) (ln col : Z) : cstate :=
+    match cur cs with
+    | None =>
+      let ci := add_line_v (mkCinfo [] short head) short txt ln col in
+      if negb head then mkCst None ln (emitted cs ++ [(ln, ci)])
+      else mkCst (Some ci) ln (emitted cs)
+    | Some ci =>
+      let split := negb (Bool.eqb (ci_short ci) short) || (negb (ci_short ci) && negb short)
+                   || negb (ln =? last_line cs + 1)%Z in
+      let '(ci1, em) := if split then (mkCinfo [] short head, emitted cs ++ [(last_line cs, ci)])
+                        else (ci, emitted cs) in
+      mkCst (Some (add_line_v ci1 short txt ln col)) ln em
+    end.
+
+  Fixpoint skip_ws_f_v (fuel : nat) (prev2 prev1 : option tok) (s : lst) (cs : cstate) (errs : list lexerr) {struct fuel}
+    : lst * cstate * list lexerr :=
+    match fuel with
+    | O => (s, cs, errs)
+    | S f =>
+      match chunk s with
+      | [] => (s, cs, errs)
+      | c0 :: rest =>
+        let wrap := match rest with
+                    | c1 :: _ => ((c0 =? 13) && (c1 =? 10)) || ((c0 =? 10) && (c1 =? 13))
+                    | [] => false end in
+        if wrap then
+          let s1 := adv s 2 in skip_ws_f_v f prev2 prev1 (mkLst (chunk s1) (line s1 + 1)%Z (pos s1) (pos s1)) cs errs
+        else if is_newline c0 then
+          let s1 := adv s 1 in skip_ws_f_v f prev2 prev1 (mkLst (chunk s1) (line s1 + 1)%Z (pos s1) (pos s1)) cs errs
+        else if is_white c0 then skip_ws_f_v f prev2 prev1 (adv s 1) cs errs
+        else
+          let pre_comment := match rest with c1 :: _ => (c0 =? 45) && (c1 =? 45) | [] => false end in
+          if negb pre_comment then (s, cs, errs)
+          else
+            let lc := match prev1 with
+                      | Some t => tok_loc (match prev2 with Some p => p | None => zero_tok end) t
+                      | None => zero_loc end in
+            let head := negb (el lc =? line s)%Z in
+            let col := (pos s - lsp s + 2)%Z in
+            let '(short, txt, s1, es) := skip_comment s in
+            let txt' := trim_suffix_nl_dashes txt in
+            skip_ws_f_v f prev2 prev1 s1 (comment_step_v cs short head txt' (line s1) col) (errs ++ es)
+      end
+    end.
+
+  Definition skip_ws_v (prev2 prev1 : option tok) (s : lst) : lst * list (Z * cinfo) * list lexerr :=
+    let '(s1, cs, errs) := skip_ws_f_v (S (length (chunk s))) prev2 prev1 s (mkCst None 0 []) [] in
+    let em := match cur cs with Some ci => emitted cs ++ [(last_line cs, ci)] | None => emitted cs end in
+    (s1, em, errs).
+
+  Section LexV.
+    Variable gbk_runes : list N -> Z.
+
+    Definition next_token_v (prev2 prev1 : option tok) (s : lst) : ltok * lst :=
+      let '(s1, cms, es1) := skip_ws_v prev2 prev1 s in
+      let '(t, s2, es2) := scan_token gbk_runes s1 in
+      (mkLtok t (es1 ++ es2) cms, s2).
+
+    Fixpoint lex_loop_v (fuel : nat) (prev2 prev1 : option tok) (s : lst) (acc : list ltok) {struct fuel} : Res (list ltok) :=
+      match fuel with
+      | O => OutOfFuel
+      | S f =>
+        let '(lt1, s1) := next_token_v prev2 prev1 s in
+        match tk (lt lt1) with
+        | TkEOF => Ok (rev (lt1 :: acc))
+        | _ => lex_loop_v f prev1 (Some (lt lt1)) s1 (lt1 :: acc)
+        end
+      end.
+
+    Definition lex_all_v (bs : list N) : Res (list ltok) :=
+      lex_loop_v (S (S (length bs))) None None (skip_first_line bs) [].
+
+    Variable classify : list N -> numcls.
+
+    (* the comment map the analysis gets / "the parser reads the file to its end" / the documentation of a line, for the
+       variant fx (the Go parser never looks at comments: it is run on the same tokens) *)
+    Definition comment_writes_v (bs : list N) : Res (option (list (Z * cinfo))) :=
+      match lex_all_v bs with
+      | Ok ts =>
+        match consumed_tokens classify (parser_view ts) with
+        | Ok (Some c) => Ok (Some (cm_writes c))
+        | Ok None => Ok None
+        | Fault k => Fault k
+        | OutOfFuel => OutOfFuel
+        end
+      | Fault k => Fault k
+      | OutOfFuel => OutOfFuel
+      end.
+
+    Definition parser_reads_all_v (bs : list N) : bool :=
+      match lex_all_v bs with
+      | Ok ts =>
+        let ts' := parser_view ts in
+        match consumed_tokens classify ts' with
+        | Ok (Some c) => Nat.eqb (length c) (length ts')
+        | _ => false
+        end
+      | _ => false
+      end.
+
+    Definition doc_comment_v (bs : list N) (line : Z) : Res (option (list N)) :=
+      match comment_writes_v bs with
+      | Ok (Some es) => Ok (Some (get_line_comment es line))
+      | Ok None => Ok None
+      | Fault k => Fault k
+      | OutOfFuel => OutOfFuel
+      end.
+  End LexV.
+End LongFix.
